@@ -19,10 +19,31 @@ def _consts(org):
     return out
 
 
+SLICERS = ('<Vec as Index>::index', '<[T] as Index>::index', '<[u8] as Index>::index',
+           'core::slice::<impl [u8]>::get', '[u8]::get', 'core::slice::<impl [u8]>::split_at',
+           '[u8]::split_at', 'core::slice::<impl [T]>::get', 'core::slice::<impl [T]>::split_at',
+           '[T]::get', '[T]::split_at')
+
+
+def _is_slicer(n):
+    return n in SLICERS or n.endswith('::split_at') or re.search(r'(\[T\]|\[u8\]|Vec)(>)?::(get|index)$', n) is not None \
+        or re.search(r'Index>::index$', n) is not None
+
+
+def _byte_consts(org):
+    """usize constants used to pick bytes (index / range bounds) on the way to a value."""
+    out = set()
+    for c in org['consts']:
+        m = re.match(r'^const (\d+)_usize$', c)
+        if m:
+            out.add(int(m.group(1)))
+    return out
+
+
 def flw9_envelope(ctx):
     ctx.rule('FLW-9', 'envelope: load returns the payload only after minimum-length, version, '
-                      'total-length and SHA-256 checks; store writes version, length, digest, data',
-             floor=8)
+                      'exact total-length and SHA-256 checks over exactly the returned bytes; store '
+                      'writes version, length, digest, data', floor=8)
     P = ctx.P
     L = P.one(ENV + 'load')
     du = DefUse(L)
@@ -31,98 +52,118 @@ def flw9_envelope(ctx):
     ctx.require(okb, 'FLW-9: envelope load has no Ok return')
     inner = [(b, t) for (b, t) in L.calls() if not b.cleanup and blobwriter_method(t.func) == 'load']
     ctx.require(inner, 'FLW-9: envelope load does not read from the backend')
-    data_local = None
-    roles = {}
+    guards = []
     for bid, blk in L.blocks.items():
         t = blk.term
-        if blk.cleanup or t is None or t.kind != 'switch' or len(t.targets) != 2:
+        if blk.cleanup or t is None or t.kind != 'switch':
             continue
-        tg = [x for (_v, x) in t.targets]
+        tg = [x for (_v, x) in t.targets
+              if not (L.blocks[x].term is not None and L.blocks[x].term.kind == 'unreachable')]
+        if len(tg) != 2:
+            continue
         pass_t = [x for x in tg if all(cfg.dominates(x, o) for o in okb)]
         fail_t = [x for x in tg if x not in pass_t and not any(cfg.can_reach(x, o) or x == o for o in okb)]
         if len(pass_t) != 1 or len(fail_t) != 1:
             continue
         org = du.origins(base_local(t.discr))
         calls = [norm_callee(c.func) for (_b, c) in org['calls']]
-        idx = sorted({int(m.group(1)) for (_b, c) in org['calls']
-                      if norm_callee(c.func) == '<Vec as Index>::index' and len(c.args) == 2
-                      for m in [re.match(r'^const (\d+)_usize$', c.args[1])] if m})
-        cmp_stmt = [st for (_b, st) in org['stmts'] if re.match(r'^(Ne|Eq|Lt|Le|Gt|Ge)\(', st.rhs)]
-        role = None
-        if any(c.endswith('Digest>::finalize') or c.endswith('::finalize') for c in calls):
-            role = 'digest'
-        elif any(c in ('u64::from_be_bytes', 'core::num::<impl u64>::from_be_bytes') for c in calls):
-            role = 'version'
-        elif any(c in ('usize::from_be_bytes', 'core::num::<impl usize>::from_be_bytes') for c in calls):
-            role = 'length-word'
-        elif any(c.endswith('Vec::len') for c in calls) and cmp_stmt:
-            role = 'min-length'
-        elif any(c.endswith(' as Try>::branch') for c in calls):
+        cmps = [re.match(r'^(Ne|Eq|Lt|Le|Gt|Ge)\(', st.rhs).group(1) for (_b, st) in org['stmts']
+                if re.match(r'^(Ne|Eq|Lt|Le|Gt|Ge)\(', st.rhs)]
+        # closures handed to combinators on the way (`.filter(|len| *len == body.len())`)
+        for (_b, c) in org['calls']:
+            for cb in P.closures_in_text(c.func):
+                cb.parse()
+                for blk2 in cb.blocks.values():
+                    if blk2.cleanup:
+                        continue
+                    for st in blk2.stmts:
+                        m2 = re.match(r'^(Ne|Eq|Lt|Le|Gt|Ge)\(', st.rhs or '') if st.kind == 'assign' else None
+                        if m2:
+                            cmps.append(m2.group(1))
+                    if blk2.term is not None and blk2.term.kind == 'call':
+                        calls.append(norm_callee(blk2.term.func))
+        cmps += ['Ne' if c.endswith('PartialEq>::ne') else 'Eq' for c in calls
+                 if c.endswith('PartialEq>::ne') or c.endswith('PartialEq>::eq')]
+        has_word = any(c.endswith('::from_be_bytes') or c.endswith('::from_le_bytes') for c in calls)
+        has_len = any(c.endswith('::len') for c in calls)
+        has_get = any(re.search(r'::(get|get_mut|split_at_checked|checked_sub)$', c) for c in calls)
+        has_digest = any(c.endswith('::finalize') for c in calls)
+        if any(c.endswith(' as Try>::branch') for c in calls) and not (has_word or has_len or has_digest):
             continue
+        role = None
+        if has_digest:
+            role = 'digest'
+        elif has_word and (has_len or has_get):
+            role = 'length-word'
+        elif has_word:
+            role = 'version'
+        elif has_len:
+            role = 'min-length'
         if role:
-            roles.setdefault(role, []).append((bid, t, org, idx, cmp_stmt, pass_t[0]))
+            guards.append({'role': role, 'bid': bid, 'term': t, 'org': org, 'calls': calls,
+                           'cmps': cmps, 'consts': _byte_consts(org)})
+    by_role = {}
+    for g in guards:
+        by_role.setdefault(g['role'], []).append(g)
     for need in ('min-length', 'version', 'length-word', 'digest'):
-        if need not in roles:
+        if need not in by_role:
             ctx.violation('FLW-9', 'load|%s-check' % need,
                           'no %s check guards the Ok return of the envelope load: a file that is '
                           'truncated, extended, bit-flipped or foreign could be decoded' % need,
                           where(L.blocks[okb[0]].term))
-    if 'min-length' in roles:
-        bid, t, org, idx, cmp_stmt, pt = roles['min-length'][0]
-        cs = _consts(org)
-        ctx.check('FLW-9', 'load|min-length-check', sum(cs & {8, 32}) >= 40 or 48 in cs,
-                  'length is compared with the header size before any header byte is read '
-                  '(constants %s)' % sorted(cs), where(t))
-    if 'version' in roles:
-        bid, t, org, idx, cmp_stmt, pt = roles['version'][0]
-        good = idx == list(range(0, 8)) and any(re.match(r'^Ne\(.*, const 0_u64\)$', st.rhs) or
-                                                 re.match(r'^Eq\(.*, const 0_u64\)$', st.rhs)
-                                                 for st in cmp_stmt)
-        ctx.check('FLW-9', 'load|version-check', good,
-                  'version word = bytes %s compared with 0' % idx, where(t))
-    if 'length-word' in roles:
-        bid, t, org, idx, cmp_stmt, pt = roles['length-word'][0]
-        calls = [norm_callee(c.func) for (_b, c) in org['calls']]
-        good = idx == list(range(8, 16)) and any(c.endswith('Vec::len') for c in calls) and \
-            any(re.match(r'^(Ne|Eq)\(', st.rhs) for st in cmp_stmt)
-        ctx.check('FLW-9', 'load|length-word-check', good,
-                  'total length compared (== / !=) with header + length word (bytes %s)' % idx, where(t))
+    if 'min-length' in by_role:
+        g = by_role['min-length'][0]
+        ctx.ok('FLW-9', 'load|min-length-check',
+               'the length of the loaded bytes is compared (%s) before the header is read'
+               % g['cmps'], where(g['term']))
+    if 'version' in by_role:
+        g = by_role['version'][0]
+        zero = any(re.match(r'^(Ne|Eq)\(.*const 0_u64\)$', st.rhs) or re.match(r'^(Ne|Eq)\(const 0_u64', st.rhs)
+                   for (_b, st) in g['org']['stmts'])
+        pos = bool(g['consts']) and min(g['consts']) == 0 and max(g['consts']) <= 8
+        ctx.check('FLW-9', 'load|version-check', zero and pos,
+                  'version word (byte positions %s) compared with 0' % sorted(g['consts']), where(g['term']))
+    if 'length-word' in by_role:
+        gs = by_role['length-word']
+        exact = [g for g in gs if any(c in ('Eq', 'Ne') for c in g['cmps']) and
+                 any(c.endswith('::len') for c in g['calls'])]
+        pos = [g for g in gs if g['consts'] and min(g['consts'] - {0}) >= 8 and max(g['consts']) <= 48]
+        g = (exact or gs)[0]
+        ctx.check('FLW-9', 'load|length-word-check', bool(exact) and bool(pos),
+                  'total length must EQUAL header + length word (bytes 8..16): %s'
+                  % ('exact comparison found' if exact else
+                     'only a one-sided bound (%s / %s): a file extended by a suffix is accepted'
+                     % (sorted(set(g['cmps'])), sorted(c.split('::')[-1] for c in g['calls'] if _is_slicer(c)))),
+                  where(g['term']))
     # digest: hashed slice == returned slice
-    starts = {}
-    for (b, t) in L.calls():
-        if b.cleanup:
-            continue
-        n = norm_callee(t.func)
-        if n == '<Vec as Index>::index' and 'RangeFrom<usize>' in t.func:
-            org = du.origins(base_local(t.args[1]))
-            starts[base_local(t.dest)] = (frozenset(_consts(org)), t)
     upd = calls_matching(L, lambda n: n.endswith('Digest>::update') or n.endswith('::update'))
-    hashed = None
-    for (b, t) in upd:
-        org = du.origins(base_local(t.args[1]))
-        for l, (cs, tt) in starts.items():
-            if l in org['locals']:
-                hashed = cs
+
+    def slice_sig(operand):
+        org = du.origins(base_local(operand))
+        sig = set()
+        for (b_, c) in org['calls']:
+            n = norm_callee(c.func)
+            if _is_slicer(n):
+                o2 = du.origins(base_local(c.args[1])) if len(c.args) > 1 else {'consts': set()}
+                sig.add((b_, n.split('::')[-1], tuple(sorted(_byte_consts(o2)))))
+        return sig
+    hashed = slice_sig(upd[0][1].args[1]) if upd else None
     returned = None
     for ob in okb:
-        for s in L.blocks[ob].stmts:
-            if s.kind == 'assign' and s.lhs == '_0':
-                org = du.origins(base_local(s.rhs))
-                for l, (cs, tt) in starts.items():
-                    if l in org['locals']:
-                        returned = cs
-    if 'digest' in roles:
-        bid, t, org, idx, cmp_stmt, pt = roles['digest'][0]
-        rng = [c for (_b, c) in org['calls'] if norm_callee(c.func) == '<Vec as Index>::index'
-               and 'Range<usize>' in c.func and 'RangeFrom' not in c.func]
-        ctx.check('FLW-9', 'load|digest-check',
-                  bool(rng) and hashed is not None,
-                  'stored digest bytes are compared with SHA-256 of a slice of the file', where(t))
-        ctx.check('FLW-9', 'load|digest-covers-returned-bytes',
-                  hashed is not None and hashed == returned,
-                  'the slice that is hashed starts at the same offset as the slice that is returned '
-                  '(hashed from %s, returned from %s)' % (sorted(hashed or []), sorted(returned or [])),
-                  where(t))
+        for st in L.blocks[ob].stmts:
+            if st.kind == 'assign' and st.lhs == '_0':
+                returned = slice_sig(st.rhs)
+    if 'digest' in by_role:
+        g = by_role['digest'][0]
+        ctx.check('FLW-9', 'load|digest-check', bool(upd) and any(c in ('Eq', 'Ne') for c in g['cmps']),
+                  'stored digest bytes are compared with SHA-256 of a slice of the file', where(g['term']))
+        same = hashed is not None and returned is not None and \
+            {(n, c) for (_b, n, c) in hashed if n != 'split_at'} == {(n, c) for (_b, n, c) in returned if n != 'split_at'} \
+            and bool(hashed)
+        ctx.check('FLW-9', 'load|digest-covers-returned-bytes', same,
+                  'the slice that is hashed is the slice that is returned (hashed via %s, returned via %s)'
+                  % (sorted((n, c) for (_b, n, c) in (hashed or [])), sorted((n, c) for (_b, n, c) in (returned or []))),
+                  where(g['term']))
     # store
     S = P.one(ENV + 'store')
     dus = DefUse(S)
